@@ -34,7 +34,10 @@ def want_span(c: dict):
     pre = c["pre"]
     l = pre.count("\n") + 1
     col = len(pre) - (pre.rfind("\n") + 1)
-    return [l, col, l, col + len(c["x"])]
+    x = c["x"]
+    if "\n" in x:      # a construct spread over several lines ends on a later line, at the length of its last line
+        return [l, col, l + x.count("\n"), len(x) - (x.rfind("\n") + 1)]
+    return [l, col, l, col + len(x)]
 
 
 def cases_for(run: Run, tier: str) -> list[dict]:
